@@ -179,7 +179,10 @@ fn not(value: Value) -> Result<Value> {
 
 fn neg(value: Value) -> Result<Value> {
     match value {
-        Value::Int(value) => Ok(Value::Int(-value)),
+        Value::Int(value) => value
+            .checked_neg()
+            .map(Value::Int)
+            .ok_or_else(|| Error::value_out_of_bounds(Value::Int(value), "neg")),
         Value::Float(value) => Ok(Value::Float(-value)),
         Value::Decimal(value) => Ok(Value::Decimal(-value)),
 
@@ -298,11 +301,22 @@ fn duration(value: Value) -> Result<Value> {
     }
 }
 
+/// Error for an arithmetic result that does not fit in the type of its operands
+fn out_of_bounds(left: impl Into<Value>, right: impl Into<Value>, function: &str) -> Error {
+    Error::value_out_of_bounds(Value::Vec(vec![left.into(), right.into()]), function)
+}
+
 fn mult(left: Value, right: Value) -> Result<Value> {
     match (left, right) {
-        (Value::Int(left), Value::Int(right)) => Ok(Value::Int(left * right)),
+        (Value::Int(left), Value::Int(right)) => left
+            .checked_mul(right)
+            .map(Value::Int)
+            .ok_or_else(|| out_of_bounds(left, right, "mult")),
         (Value::Float(left), Value::Float(right)) => Ok(Value::Float(left * right)),
-        (Value::Decimal(left), Value::Decimal(right)) => Ok(Value::Decimal(left * right)),
+        (Value::Decimal(left), Value::Decimal(right)) => left
+            .checked_mul(right)
+            .map(Value::Decimal)
+            .ok_or_else(|| out_of_bounds(left, right, "mult")),
 
         (Value::None, _) | (_, Value::None) => Ok(Value::None),
         _ => Err(Error::InvalidType),
@@ -343,10 +357,19 @@ fn rem(left: Value, right: Value) -> Result<Value> {
 
 fn add(left: Value, right: Value) -> Result<Value> {
     match (left, right) {
-        (Value::Int(left), Value::Int(right)) => Ok(Value::Int(left + right)),
+        (Value::Int(left), Value::Int(right)) => left
+            .checked_add(right)
+            .map(Value::Int)
+            .ok_or_else(|| out_of_bounds(left, right, "add")),
         (Value::Float(left), Value::Float(right)) => Ok(Value::Float(left + right)),
-        (Value::Decimal(left), Value::Decimal(right)) => Ok(Value::Decimal(left + right)),
-        (Value::DateTime(left), Value::Duration(right)) => Ok(Value::DateTime(left + right)),
+        (Value::Decimal(left), Value::Decimal(right)) => left
+            .checked_add(right)
+            .map(Value::Decimal)
+            .ok_or_else(|| out_of_bounds(left, right, "add")),
+        (Value::DateTime(left), Value::Duration(right)) => left
+            .checked_add_signed(right)
+            .map(Value::DateTime)
+            .ok_or_else(|| out_of_bounds(left, right, "add")),
 
         (Value::None, _) | (_, Value::None) => Ok(Value::None),
         _ => Err(Error::InvalidType),
@@ -355,12 +378,24 @@ fn add(left: Value, right: Value) -> Result<Value> {
 
 fn sub(left: Value, right: Value) -> Result<Value> {
     match (left, right) {
-        (Value::Int(left), Value::Int(right)) => Ok(Value::Int(left - right)),
+        (Value::Int(left), Value::Int(right)) => left
+            .checked_sub(right)
+            .map(Value::Int)
+            .ok_or_else(|| out_of_bounds(left, right, "sub")),
         (Value::Float(left), Value::Float(right)) => Ok(Value::Float(left - right)),
-        (Value::Decimal(left), Value::Decimal(right)) => Ok(Value::Decimal(left - right)),
+        (Value::Decimal(left), Value::Decimal(right)) => left
+            .checked_sub(right)
+            .map(Value::Decimal)
+            .ok_or_else(|| out_of_bounds(left, right, "sub")),
         (Value::DateTime(left), Value::DateTime(right)) => Ok(Value::Duration(left - right)),
-        (Value::DateTime(left), Value::Duration(right)) => Ok(Value::DateTime(left - right)),
-        (Value::Duration(left), Value::Duration(right)) => Ok(Value::Duration(left - right)),
+        (Value::DateTime(left), Value::Duration(right)) => left
+            .checked_sub_signed(right)
+            .map(Value::DateTime)
+            .ok_or_else(|| out_of_bounds(left, right, "sub")),
+        (Value::Duration(left), Value::Duration(right)) => left
+            .checked_sub(&right)
+            .map(Value::Duration)
+            .ok_or_else(|| out_of_bounds(left, right, "sub")),
 
         (Value::None, _) | (_, Value::None) => Ok(Value::None),
         _ => Err(Error::InvalidType),
